@@ -125,6 +125,9 @@ enum Upd {
     GSet(f64),
     GAdd(i64), // n/1024, negative = decrement
     HRec(Vec<f64>),
+    /// `Histogram::record_many(v, n)` — ONE call on the handle (the model: `n` times `record(v)`; C19.record_many_is_n_records,
+    /// C19.src_hist_handle_path)
+    HRecMany(f64, usize),
 }
 
 #[derive(Clone, Debug)]
@@ -429,6 +432,12 @@ impl Tally {
                     self.recorded.get_mut(id).unwrap().push(v.to_bits());
                 }
             }
+            Upd::HRecMany(v, n) => {
+                for _ in 0..*n {
+                    self.pending.get_mut(id).unwrap().push(v.to_bits());
+                    self.recorded.get_mut(id).unwrap().push(v.to_bits());
+                }
+            }
         }
     }
     fn describe(&mut self, kind: u8, name: &str, unit: Option<Unit>, desc: &str) {
@@ -607,6 +616,14 @@ fn upd_lines(rid: usize, tid: usize, kind: u8, key: &KeyUse, upd: &Upd) -> Vec<S
                 vs.iter().map(|v| format!("{} hrec {} {}", p, key_tok(key), val_tok(*v))).collect()
             }
         }
+        // one `record_many(v, n)` call on the real handle is `n` model records (0 → nothing but the registration)
+        Upd::HRecMany(v, n) => {
+            if *n == 0 {
+                vec![format!("{} register {} {}", p, kind_tok(kind), key_tok(key))]
+            } else {
+                (0..*n).map(|_| format!("{} hrec {} {}", p, key_tok(key), val_tok(*v))).collect()
+            }
+        }
     }
 }
 
@@ -628,6 +645,7 @@ fn apply(h: &H, upd: &Upd) {
                 h.record(*v)
             }
         }
+        (H::H(h), Upd::HRecMany(v, n)) => h.record_many(*v, *n),
         _ => panic!("update does not fit the handle"),
     }
 }
@@ -812,6 +830,8 @@ fn exec(out: &mut Out, w: &mut World, nrec: usize, script: &[G]) {
                         Upd::GAdd(_) => "add",
                         Upd::HRec(v) if v.len() > 64 => "burst",
                         Upd::HRec(_) => "rec",
+                        Upd::HRecMany(_, n) if *n > 64 => "record_many>64",
+                        Upd::HRecMany(_, _) => "record_many",
                     }));
                     out.count(&format!("via.{:?}", via));
                     out.count(&format!("key.variant{}", key.variant % 8));
@@ -1054,6 +1074,10 @@ fn gen_upd(r: &mut Rng, kind: u8, gauge_arith_ok: bool, allow_none: bool) -> Upd
         _ => {
             if allow_none && r.chance(1, 8) {
                 Upd::None
+            } else if r.chance(1, 5) {
+                // ONE record_many call: counts around the bucket's block size, zero, and several blocks
+                let v = if r.chance(1, 10) { *r.pick(&WILD) } else { dy(r.range(0, 40) as i64 * 512 - 4096) };
+                Upd::HRecMany(v, *r.pick(&[0usize, 1, 2, 3, 7, 63, 64, 65, 128, 129, 200]))
             } else {
                 let n = match r.weighted(&[6, 3, 2]) {
                     0 => 1,
@@ -1105,6 +1129,7 @@ fn gen_items(r: &mut Rng, nrec: usize, names: &[String], pool: &[(String, Vec<(S
                 // no gauge arithmetic in trees (the receiving recorder's gauge may hold a non-dyadic value)
                 let upd = match gen_upd(r, kind, false, true) {
                     Upd::HRec(v) if to_global && v.len() > 20 => Upd::HRec(v[..20].to_vec()),
+                    Upd::HRecMany(v, n) if to_global && n > 20 => Upd::HRecMany(v, 20),
                     u => u,
                 };
                 items.push(Item::Reg { mac: r.chance(2, 3), meta: r.below(N_META) as u8, kind, key, upd });
@@ -1140,17 +1165,40 @@ fn gen_script(r: &mut Rng, out: &mut Out) -> (usize, usize, Vec<G>) {
     let names_all = ["reqs", "lat", "a", "Ünï x\n/;", ""];
     let nnames = r.range(1, 3);
     let names: Vec<String> = (0..nnames).map(|_| r.pick_str(&names_all).to_string()).collect();
-    let lnames = ["host", "code", "zone", "é"];
-    let lvals = ["a", "b", "", "x:y,z"];
+    // a quarter of the scripts use a WIDE pool: 6-16 names (long ones, names that differ in their last byte only), up to
+    // 9 labels per key out of 12 label names, label values of 9-48 bytes — whatever `snapshot` does per entry (metadata
+    // look-up by kind and name, key look-up in the handle maps) meets keys that do not fit small fixed-size shortcuts
+    let wide = r.chance(1, 4);
+    let mut names = names;
+    let lnames_small = ["host", "code", "zone", "é"];
+    let lnames_wide = ["host", "code", "zone", "é", "l4", "l5", "region.with.a.long.label.name", "l7", "L7", "_", "ü8", "l9"];
+    let lvals_small = ["a", "b", "", "x:y,z"];
+    let lvals_wide = [
+        "a", "", "x:y,z", "123456789", "a-label-value-longer-than-a-word", "ünïcödé välüé with blanks",
+        "0123456789abcdef0123456789abcdef0123456789abcdef", "123456788",
+    ];
+    if wide {
+        out.count("cfg.wide-key-pool");
+        names.clear();
+        let stem = *r.pick(&["m", "requests.duration.by.handler.and.status.total", "Ünï x\n/;"]);
+        for i in 0..r.range(6, 16) {
+            names.push(format!("{}{}", stem, i));
+        }
+    }
+    let lnames: &[&str] = if wide { &lnames_wide } else { &lnames_small };
+    let lvals: &[&str] = if wide { &lvals_wide } else { &lvals_small };
     let mut pool: Vec<(String, Vec<(String, String)>)> = vec![];
-    for _ in 0..r.range(2, 5) {
+    for _ in 0..(if wide { r.range(6, 14) } else { r.range(2, 5) }) {
         let name = names[r.below(names.len())].clone();
         let mut ls: Vec<(String, String)> = vec![];
-        let nl = r.weighted(&[3, 3, 3, 2, 1]);
+        let nl = if wide { r.weighted(&[1, 1, 1, 1, 1, 2, 2, 1, 1, 1]) } else { r.weighted(&[3, 3, 3, 2, 1]) };
         let mut avail: Vec<&str> = lnames.to_vec();
         for _ in 0..nl.min(avail.len()) {
             let k = avail.remove(r.below(avail.len()));
-            ls.push((k.to_string(), r.pick_str(&lvals).to_string()));
+            ls.push((k.to_string(), r.pick_str(lvals).to_string()));
+        }
+        if ls.len() >= 5 {
+            out.count("key.labels>=5");
         }
         pool.push((name, ls));
     }
@@ -1239,6 +1287,21 @@ fn corpus() -> Vec<(usize, Vec<G>)> {
     big.push(reg(0, 0, Via::Direct, 2, ku("long", &[], 0), Upd::HRec((0..700).map(|i| dy(i)).collect())));
     big.push(G::Snapshot { rid: 0, tid: 1, map: true });
     big.push(snap(0));
+    // scale: more metrics than any power-of-two bound up to 1024 would hold (1100 counters, the first and the last ones
+    // updated again afterwards, every one described), one histogram fed by ONE record_many of 4200 values (66 blocks):
+    // every metric listed, in first-registration order, the earliest ones included
+    let mut scale: Vec<G> = vec![];
+    for i in 0..1100usize {
+        scale.push(reg(0, i % 3, Via::Direct, 0, ku(&format!("s{}", i), &[], (i % 8) as u8), Upd::CInc(i as u64)));
+    }
+    for i in [0usize, 1, 2, 1023, 1024, 1099] {
+        scale.push(reg(0, 0, Via::Direct, 0, ku(&format!("s{}", i), &[], 3), Upd::CInc(1)));
+        scale.push(d(0, 0, &format!("s{}", i), Some(Unit::Count), "scaled"));
+    }
+    scale.push(reg(0, 0, Via::Direct, 2, ku("s.hist", &[], 0), Upd::HRecMany(0.5, 4200)));
+    scale.push(snap(0));
+    scale.push(reg(0, 1, Via::Local, 2, ku("s.hist", &[], 1), Upd::HRecMany(0.25, 1)));
+    scale.push(snap(0));
     vec![
         // description before registration; a later description without unit keeps the earlier unit
         (1, vec![
@@ -1282,7 +1345,26 @@ fn corpus() -> Vec<(usize, Vec<G>)> {
             reg(0, 0, Via::Local, 2, ku("lat", &[], 4), Upd::HRec(vec![dy(64)])),
             snap(0),
         ]),
+        // ONE record_many call per line (the path `impl HistogramFn for AtomicBucket<f64>`, metrics-util/src/storage/mod.rs):
+        // counts of zero, one, just below / at / above the block size, several blocks, mixed with single records,
+        // through all three ways of reaching the recorder; every value exactly as often as the count says
+        (1, vec![
+            reg(0, 0, Via::Direct, 2, ku("many", &[], 0), Upd::HRecMany(0.5, 0)),
+            snap(0),
+            reg(0, 0, Via::Direct, 2, ku("many", &[], 1), Upd::HRecMany(0.25, 1)),
+            reg(0, 1, Via::Local, 2, ku("many", &[], 2), Upd::HRecMany(1.5, 63)),
+            reg(0, 1, Via::Local, 2, ku("many", &[], 2), Upd::HRec(vec![2.5])),
+            snap(0),
+            reg(0, 2, Via::Macro, 2, ku("many", &[], 3), Upd::HRecMany(3.0, 64)),
+            snap(0),
+            reg(0, 0, Via::Macro, 2, ku("many", &[("host", "a")], 4), Upd::HRecMany(4.0, 65)),
+            reg(0, 0, Via::Direct, 2, ku("many", &[], 5), Upd::HRecMany(f64::INFINITY, 2)),
+            reg(0, 0, Via::Direct, 2, ku("many", &[], 6), Upd::HRecMany(5.0, 200)),
+            snap(0),
+            snap(0),
+        ]),
         (1, big),
+        (1, scale),
         // a scope left by unwinding (panic caught on the same thread) gives the enclosing scope's recorder back:
         // what is registered afterwards belongs to the enclosing recorder / the decoy / the global recorder
         (2, vec![
@@ -1962,53 +2044,135 @@ pub fn run_registration_races(cfg: &Cfg, out: &mut Out) {
 }
 
 
+/// a yield point of the lock-free bucket (one step of `Model/Bucket.lean`); everything else a scheduled thread stops at
+/// (registry sections of a late registration) is no step of the histogram model
+fn h_is_bucket_point(id: &str) -> bool {
+    id == "start" || id.starts_with("bkt.") || id.starts_with("blk.") || id.starts_with("spin:bkt.")
+}
+
+/// EXACT K1 steps of a trace (the Lean predicate `Bucket.k1Step`; same rule as `c05::Sig::k1_exact`, which is checked
+/// to give the same number): slot claims that really take a slot (the pusher's next point is the publish step) on a block
+/// that a clear has detached since the pusher obtained it (a successful `bkt.clear.cas` — the clearer's next point is
+/// `bkt.clear.quiesced` — between the pusher's previous grant and the claim).  Answers (thread, number of pushes that
+/// thread had completed before) per K1 claim: WHICH record() it is.
+fn h_k1_claims(tr: &[(usize, &'static str)]) -> Vec<(usize, usize)> {
+    let next_of = |gi: usize, t: usize| tr[gi + 1..].iter().find(|(t2, _)| *t2 == t).map(|x| x.1);
+    let detaches: Vec<usize> = tr
+        .iter()
+        .enumerate()
+        .filter(|(gi, (t, id))| *id == "bkt.clear.cas" && next_of(*gi, *t) == Some("bkt.clear.quiesced"))
+        .map(|x| x.0)
+        .collect();
+    let mut claims = vec![];
+    for (gi, (t, id)) in tr.iter().enumerate() {
+        if *id == "blk.push.claim" && next_of(gi, *t) == Some("blk.push.publish") {
+            if let Some(p) = tr[..gi].iter().rposition(|(t2, _)| t2 == t) {
+                if detaches.iter().any(|c| *c > p && *c < gi) {
+                    let done = tr[..gi].iter().filter(|(t2, id2)| t2 == t && *id2 == "blk.push.publish").count();
+                    claims.push((*t, done));
+                }
+            }
+        }
+    }
+    claims
+}
+
+#[derive(Clone, Copy, PartialEq, Debug)]
+enum HRole {
+    /// k-th recording thread (model thread k)
+    Rec(usize),
+    /// j-th snapshotting thread (model thread nrec + 1 + j; the prefill is model thread nrec)
+    Snap(usize),
+    /// registers new metrics while snapshots run (scene not replayed on the histogram model)
+    Late,
+}
+
+fn h_vals_tok(vs: &[u64]) -> String {
+    if vs.is_empty() {
+        "e".to_string()
+    } else {
+        vs.iter()
+            .map(|b| {
+                let v = f64::from_bits(*b);
+                if v >= 0.0 && v.fract() == 0.0 && v < 1e15 { format!("{}", v as u64) } else { format!("?{:x}", b) }
+            })
+            .collect::<Vec<_>>()
+            .join("_")
+    }
+}
+
 pub fn run_concurrent(cfg: &Cfg, out: &mut Out) {
     use std::sync::Mutex;
     run_registration_races(cfg, out);
     static META: metrics::Metadata<'static> = metrics::Metadata::new("mv", metrics::Level::INFO, None);
     let root = Rng::new(cfg.seed ^ 0xC19C);
     let n = if cfg.thorough { 600 } else { 120 };
-    for i in 0..n {
+    // case 0 of the stream: the witness of `C19.conc_hist_exact_fails` (K-C19-K1) replayed on the real recorder, block
+    // size 64 (recorder 1 loads the tail, the snapshot detaches, waits for recorder 0 and shows its value, then recorder 1
+    // claims and publishes on the detached block)
+    const WITNESS: [usize; 15] = [0, 1, 2, 0, 0, 0, 0, 1, 2, 2, 2, 2, 2, 1, 1];
+    // (the witness runs first; its index `n` keeps the PRNG forks of the generated cases unchanged)
+    for i in std::iter::once(n).chain(0..n) {
+        let witness = i == n;
         let mut r = root.fork(i as u64);
-        out.case(&format!("concurrent seed={} i={}", cfg.seed, i));
+        out.case(&format!("concurrent seed={} i={}{}", cfg.seed, i, if witness { " (witness of C19.conc_hist_exact_fails)" } else { "" }));
         let rec = Arc::new(DebuggingRecorder::new());
         let snapper = rec.snapshotter();
         let key = Key::from_name("lat");
         let h = rec.register_histogram(&key, &META);
         // the first cases are targeted: a record() completes entirely between two steps of the snapshot's drain
-        let targeted = i < 24;
-        let prefill = if targeted { [0usize, 1, 63, 64][i % 4] } else { *r.pick(&[0usize, 1, 2, 62, 63, 64, 65]) };
+        let targeted = i < 24 && !witness;
+        let prefill = if witness { 0 } else if targeted { [0usize, 1, 63, 64][i % 4] } else { *r.pick(&[0usize, 1, 2, 62, 63, 64, 65]) };
         let mut next_val = 1u32;
         let mut recorded: Vec<u64> = vec![];
+        let mut prefilled: Vec<u64> = vec![];
         for _ in 0..prefill {
             let v = next_val as f64;
             next_val += 1;
             h.record(v);
             recorded.push(v.to_bits());
+            prefilled.push(v.to_bits());
         }
-        let nrec = if targeted { 1 } else { r.range(1, 3) };
+        let nrec = if witness { 2 } else if targeted { 1 } else { r.range(1, 3) };
         let mut bodies: Vec<Box<dyn FnOnce() + Send + 'static>> = vec![];
-        for _ in 0..nrec {
+        let mut roles: Vec<HRole> = vec![];
+        // per recording thread: its calls (value, count): count 1 = record(v), otherwise ONE record_many(v, count)
+        let mut rec_calls: Vec<Vec<(f64, usize)>> = vec![];
+        for k in 0..nrec {
             let h = h.clone();
-            let k = if targeted { 1 + (i / 12) % 2 } else { r.range(1, 3) };
-            let mut vals = vec![];
-            for _ in 0..k {
+            let ncalls = if witness { 1 } else if targeted { 1 + (i / 12) % 2 } else { r.range(1, 3) };
+            let mut calls = vec![];
+            for _ in 0..ncalls {
                 let v = next_val as f64;
                 next_val += 1;
-                vals.push(v);
-                recorded.push(v.to_bits());
+                let c = if !witness && !targeted && r.chance(1, 4) { *r.pick(&[0usize, 2, 3]) } else { 1 };
+                calls.push((v, c));
+                for _ in 0..c {
+                    recorded.push(v.to_bits());
+                }
+                if c != 1 {
+                    out.count("concurrent.record_many");
+                }
             }
+            rec_calls.push(calls.clone());
+            roles.push(HRole::Rec(k));
             bodies.push(Box::new(move || {
-                for v in vals {
-                    h.record(v);
+                for (v, c) in calls {
+                    if c == 1 {
+                        h.record(v);
+                    } else {
+                        h.record_many(v, c);
+                    }
                 }
             }));
         }
-        let snaps: Arc<Mutex<Vec<Vec<u64>>>> = Arc::new(Mutex::new(vec![]));
-        let nsnap = if targeted { 1 } else { r.range(1, 3) };
+        // (snapshotting thread j, what its snapshot showed for the histograms), in the order the snapshots returned
+        let snaps: Arc<Mutex<Vec<(usize, Vec<u64>)>>> = Arc::new(Mutex::new(vec![]));
+        let nsnap = if witness || targeted { 1 } else { r.range(1, 3) };
         {
             let snapper = snapper.clone();
             let snaps = snaps.clone();
+            roles.push(HRole::Snap(0));
             bodies.push(Box::new(move || {
                 for _ in 0..nsnap {
                     let s = snapper.snapshot().into_vec();
@@ -2018,7 +2182,7 @@ pub fn run_concurrent(cfg: &Cfg, out: &mut Out) {
                             vals.extend(xs.into_iter().map(|x| x.into_inner().to_bits()));
                         }
                     }
-                    snaps.lock().unwrap().push(vals);
+                    snaps.lock().unwrap().push((0, vals));
                 }
             }));
         }
@@ -2027,10 +2191,13 @@ pub fn run_concurrent(cfg: &Cfg, out: &mut Out) {
         // races a snapshot is listed from some snapshot on, with every value exactly once)
         let late = Arc::new(Mutex::new(Vec::<u64>::new())); // counter values of "late" seen by the snapshots
         let mut has_late = false;
-        if !targeted && r.chance(1, 3) {
+        let mut second = false;
+        if !witness && !targeted && r.chance(1, 3) {
             let snapper = snapper.clone();
             let snaps = snaps.clone();
             let late = late.clone();
+            second = true;
+            roles.insert(0, HRole::Snap(1));
             bodies.insert(0, Box::new(move || {
                 let s = snapper.snapshot().into_vec();
                 let mut vals = vec![];
@@ -2041,15 +2208,18 @@ pub fn run_concurrent(cfg: &Cfg, out: &mut Out) {
                         _ => {}
                     }
                 }
-                snaps.lock().unwrap().push(vals);
+                snaps.lock().unwrap().push((1, vals));
             }));
             out.count("concurrent.second_snapshotter");
         }
-        if !targeted && r.chance(1, 3) {
+        let mut late_val = None;
+        if !witness && !targeted && r.chance(1, 3) {
             has_late = true;
             let rec2 = rec.clone();
             let v = next_val as f64;
             recorded.push(v.to_bits());
+            late_val = Some(v.to_bits());
+            roles.insert(0, HRole::Late);
             bodies.insert(0, Box::new(move || {
                 let k = Key::from_parts("late", vec![Label::new("host", "a")]);
                 rec2.register_counter(&k, &META).increment(1);
@@ -2060,7 +2230,9 @@ pub fn run_concurrent(cfg: &Cfg, out: &mut Out) {
         }
         let nt = bodies.len();
         let mut sch = vec![];
-        if targeted {
+        if witness {
+            sch.extend(WITNESS);
+        } else if targeted {
             // snapshot thread advances `a` grants into its drain, then the recorder runs to completion, then the rest
             let a = 1 + (i / 4) % 6;
             sch.extend(vec![nt - 1; a]);
@@ -2081,6 +2253,7 @@ pub fn run_concurrent(cfg: &Cfg, out: &mut Out) {
             continue;
         }
         // one more snapshot at quiescence collects what is left
+        let final_vals: Vec<u64>;
         {
             let s = snapper.snapshot().into_vec();
             let mut vals = vec![];
@@ -2093,7 +2266,7 @@ pub fn run_concurrent(cfg: &Cfg, out: &mut Out) {
                     _ => {}
                 }
             }
-            snaps.lock().unwrap().push(vals);
+            final_vals = vals;
             if has_late {
                 let want = vec!["h:lat".to_string(), "c:late".to_string(), "h:lat2".to_string()];
                 if names != want || late_final != Some((1, Some(Unit::Count), Some("registered late".to_string()))) {
@@ -2107,35 +2280,148 @@ pub fn run_concurrent(cfg: &Cfg, out: &mut Out) {
                 }
             }
         }
-        let snaps = snaps.lock().unwrap().clone();
-        let sig = crate::c05::signatures_of_trace(&run.trace);
+        let by_thread = snaps.lock().unwrap().clone();
+        let mut snaps: Vec<Vec<u64>> = by_thread.iter().map(|x| x.1.clone()).collect();
+        snaps.push(final_vals.clone());
         if run.trace.iter().any(|(_, id)| id.starts_with("bkt.clear")) && run.trace.iter().any(|(_, id)| *id == "blk.push.claim") {
             out.nontrivial();
         }
+        // ---- the K1 steps of this run, EXACTLY (Lean `k1Step`; `C05.conservation_except_K1`, `C19.conc_hist_partition_partial`
+        // hold for runs without one), and WHICH values they are: the thread's value list (record_many expanded) at the
+        // number of pushes it had completed.  In a scene with a late registration two buckets (`lat`, `lat2`) share the
+        // point ids, so there the count can only be too large (a detach of one bucket blamed for a claim on the other).
+        let expanded = |t: usize| -> Vec<u64> {
+            match roles[t] {
+                HRole::Rec(k) => rec_calls[k].iter().flat_map(|(v, c)| std::iter::repeat(v.to_bits()).take(*c)).collect(),
+                HRole::Late => late_val.into_iter().collect(),
+                HRole::Snap(_) => vec![],
+            }
+        };
+        let claims = h_k1_claims(&run.trace);
+        let k1_exact = crate::c05::signatures_of_trace(&run.trace).k1_exact;
+        if claims.len() != k1_exact {
+            out.oracle_fail(
+                "harness: the K1 claims of the trace (c19) and the exact K1 count (c05::signatures_of_trace) differ [no-known-signature]",
+                &format!("{:?} vs {}; trace {:?}", claims, k1_exact, run.trace),
+            );
+        }
+        let mut k1_vals: Vec<u64> = vec![];
+        for (t, done) in &claims {
+            match expanded(*t).get(*done) {
+                Some(v) => k1_vals.push(*v),
+                None => out.oracle_fail(
+                    "harness: a K1 claim of the trace belongs to no record() of its thread [no-known-signature]",
+                    &format!("thread {} after {} completed pushes; trace {:?}", t, done, run.trace),
+                ),
+            }
+        }
+        if k1_exact > 0 {
+            out.count("concurrent.runs-with-a-K1-step(Lean k1Step)");
+        }
+        // ---- replay on the Lean model (`debug hconc`, Model/DebuggingHist.lean): every snapshot of every thread, value by
+        // value in the order shown, the K1 count, the blamed values and what the snapshot after the run shows must be what
+        // the bucket step machine gives under the executed schedule
+        if !has_late {
+            let nsnapth = if second { 2 } else { 1 };
+            let lid = |t: usize| match roles[t] {
+                HRole::Rec(k) => k,
+                HRole::Snap(j) => nrec + j,
+                HRole::Late => usize::MAX,
+            };
+            let toks: Vec<String> =
+                run.trace.iter().map(|(t, id)| if h_is_bucket_point(id) { format!("{}", lid(*t)) } else { format!("{}n", lid(*t)) }).collect();
+            let labels: Vec<&str> = run.trace.iter().filter(|(_, id)| h_is_bucket_point(id)).map(|x| x.1).collect();
+            let recs_tok: Vec<String> = rec_calls
+                .iter()
+                .map(|calls| {
+                    if calls.is_empty() {
+                        "-".to_string()
+                    } else {
+                        calls.iter().map(|(v, c)| if *c == 1 { format!("{}", *v as u64) } else { format!("{}*{}", *v as u64, c) }).collect::<Vec<_>>().join("+")
+                    }
+                })
+                .collect();
+            let pre_tok = if prefilled.is_empty() { "-".to_string() } else { prefilled.iter().map(|b| format!("{}", f64::from_bits(*b) as u64)).collect::<Vec<_>>().join("+") };
+            let snaps_tok: Vec<String> = (0..nsnapth).map(|j| if j == 0 { nsnap.to_string() } else { "1".to_string() }).collect();
+            let per: Vec<String> = (0..nsnapth)
+                .map(|j| {
+                    let mine: Vec<String> = by_thread.iter().filter(|(jj, _)| *jj == j).map(|(_, vs)| h_vals_tok(vs)).collect();
+                    if mine.is_empty() { ".".to_string() } else { mine.join("+") }
+                })
+                .collect();
+            out.op(
+                &format!("debug hconc 64 {} {} {} {}", pre_tok, recs_tok.join(","), snaps_tok.join(","), if toks.is_empty() { "-".to_string() } else { toks.join(".") }),
+                &format!("{} | k1={} | k1vals={} | snaps={} | pending={}", labels.join("."), k1_exact, h_vals_tok(&k1_vals), per.join(","), h_vals_tok(&final_vals)),
+            );
+            out.count("concurrent.replayed-on-the-Lean-model(debug hconc)");
+        }
+        // ---- independent of the model: multiset accounting over all snapshots
         let mut seen: HashMap<u64, usize> = HashMap::new();
         for s in &snaps {
             for v in s {
                 *seen.entry(*v).or_insert(0) += 1;
             }
         }
-        let dup: Vec<f64> = seen.iter().filter(|(_, c)| **c > 1).map(|(v, _)| f64::from_bits(*v)).collect();
-        let invented: Vec<f64> = seen.keys().filter(|v| !recorded.contains(v)).map(|v| f64::from_bits(*v)).collect();
-        let lost: Vec<f64> = recorded.iter().filter(|v| !seen.contains_key(v)).map(|v| f64::from_bits(*v)).collect();
+        let mut want: HashMap<u64, usize> = HashMap::new();
+        for v in &recorded {
+            *want.entry(*v).or_insert(0) += 1;
+        }
+        let mut blamed: HashMap<u64, usize> = HashMap::new();
+        for v in &k1_vals {
+            *blamed.entry(*v).or_insert(0) += 1;
+        }
+        let mut dup: Vec<f64> = vec![];
+        let mut invented: Vec<f64> = vec![];
+        let mut lost: Vec<f64> = vec![];
+        let mut unexcused: Vec<f64> = vec![];
+        for (v, c) in &seen {
+            let w = want.get(v).copied().unwrap_or(0);
+            if w == 0 {
+                invented.push(f64::from_bits(*v));
+            } else if *c > w {
+                dup.push(f64::from_bits(*v));
+            }
+        }
+        for (v, w) in &want {
+            let c = seen.get(v).copied().unwrap_or(0);
+            if c < *w {
+                for _ in 0..(*w - c) {
+                    lost.push(f64::from_bits(*v));
+                }
+                // every missing occurrence must be one whose slot claim was a K1 step
+                if *w - c > blamed.get(v).copied().unwrap_or(0) {
+                    unexcused.push(f64::from_bits(*v));
+                }
+            }
+        }
+        lost.sort_by(|a, b| a.partial_cmp(b).unwrap());
         let show = |snaps: &Vec<Vec<u64>>| -> Vec<Vec<f64>> { snaps.iter().map(|s| s.iter().map(|b| f64::from_bits(*b)).collect()).collect() };
         if !dup.is_empty() || !invented.is_empty() {
             out.oracle_fail(
-                "a histogram value appears in two snapshots, or a value that was never recorded appears [no-known-signature]",
+                "a histogram value appears in more snapshots than it was recorded, or a value that was never recorded appears [no-known-signature]",
                 &format!("duplicated {:?} invented {:?}; snapshots {:?}; trace {:?}", dup, invented, show(&snaps), run.trace),
             );
         }
         if !lost.is_empty() {
+            // excused as the known finding only when EVERY lost occurrence is a value whose own slot claim was a K1 step
+            // (so: not more lost values than K1 steps, and no other value than theirs)
+            let excused = unexcused.is_empty() && lost.len() <= k1_exact;
             out.oracle_fail(
+                &format!("a recorded histogram value appears in no snapshot [{}]", if excused { "K1:straggler-push-on-detached-block" } else { "no-known-signature" }),
                 &format!(
-                    "a recorded histogram value appears in no snapshot [{}]",
-                    if sig.k1 { "K1:straggler-push-on-detached-block" } else { "no-known-signature" }
+                    "lost {:?}; K1 steps in the trace {} (values {:?}); lost without a K1 step of their own {:?}; snapshots {:?}; trace {:?}",
+                    lost,
+                    k1_exact,
+                    k1_vals.iter().map(|b| f64::from_bits(*b)).collect::<Vec<_>>(),
+                    unexcused,
+                    show(&snaps),
+                    run.trace
                 ),
-                &format!("lost {:?}; snapshots {:?}; trace {:?}", lost, show(&snaps), run.trace),
             );
+        }
+        if witness {
+            let ok = k1_exact == 1 && lost == vec![2.0] && show(&snaps) == vec![vec![1.0], vec![]];
+            out.count(if ok { "concurrent.corpus:K-C19-K1-witness-replayed(value 2 in no snapshot)" } else { "concurrent.corpus:K-C19-K1-witness-did-not-replay" });
         }
     }
 }
